@@ -42,12 +42,9 @@ pub fn canon_tokens(ts: TokenStream) -> String {
                 }
                 TokenTree::Ident(i) => out.push(i.to_string()),
                 TokenTree::Punct(p) => {
-                    // keep joint puncts glued so `::` != `: :`
-                    let mut s = p.as_char().to_string();
-                    if p.spacing() == proc_macro2::Spacing::Joint {
-                        s.push('+');
-                    }
-                    out.push(s)
+                    // spacing is not recorded: `||` lexed from text is joint, the same two
+                    // tokens printed by syn (closure bars) are not
+                    out.push(p.as_char().to_string())
                 }
                 TokenTree::Literal(l) => out.push(l.to_string()),
             }
